@@ -696,6 +696,7 @@ impl RepositoryEditor {
                 );
             }
         }
+        snapshot._extra = _extra;
 
         Ok(snapshot)
     }
